@@ -215,3 +215,34 @@ Example ex_fallback_none :
   allocate ex_dev (ex_rq USAGE_UNKNOWN 0 PROTECTED 0 0) 255 None (mask_oracle 0 VK_OOM)
   = ([], RErr VK_FEATURE_NOT_PRESENT).
 Proof. vm_compute. reflexivity. Qed.
+
+(* ---------------------------------------------------------------- second tie: translated code
+   GenLeaf.v is REGENERATED from /repo's Go source on every run (tools/go2coq, explicit Go integer
+   semantics GoSem.v); the theorems below say that the generated definitions equal the model's
+   functions on the stated ranges, so an edit of these Go functions breaks an obligation of this file. *)
+From Arsenal Require GoSem GenLeaf GenLeafProofs2.
+Local Open Scope Z_scope.
+
+(* vam/allocator.go findMemoryPreferences: usage, creation flags, required / preferred flags, buffer-or-image
+   usage -> (required, preferred, notPreferred); the Vulkan flag constants are read from the vendored headers *)
+Theorem C19_code_findMemoryPreferences : forall d rq bufimg,
+  (forall u, bufimg = Some u -> (u < 2 ^ 32)%N) ->
+  GenLeaf.findMemoryPreferences (d_integrated d) (Z.of_N (r_usage rq)) (Z.of_N (r_flags rq))
+      (Z.of_N (r_req rq)) (Z.of_N (r_pref rq)) (GenLeafProofs2.bufimg_has bufimg) (GenLeafProofs2.bufimg_val bufimg)
+  = GenLeafProofs2.triple_of_N (prefs_of d rq bufimg).
+Proof. exact GenLeafProofs2.gen_findMemoryPreferences_eq. Qed.
+Print Assumptions C19_code_findMemoryPreferences.
+
+(* vam/allocator.go findMemoryTypeIndex incl. its loop over the memory type table (any length): the index it
+   returns (or FeatureNotPresent) is the model's `select`; the loop neither panics nor diverges *)
+Theorem C19_code_findMemoryTypeIndex : forall d rq typeBits bufimg,
+  (forall u, bufimg = Some u -> (u < 2 ^ 32)%N) ->
+  (r_req rq < 2 ^ 32)%N -> (r_pref rq < 2 ^ 32)%N -> (typeBits < 2 ^ 32)%N ->
+  Forall (fun f => (f < 2 ^ 32)%N) (d_types d) -> Z.of_nat (length (d_types d)) < 2 ^ 62 ->
+  GenLeaf.findMemoryTypeIndex (Z.of_N (global_bits (d_amd d) (d_types d))) (d_integrated d)
+      (Z.of_N (r_usage rq)) (Z.of_N (r_flags rq)) (Z.of_N (r_req rq)) (Z.of_N (r_pref rq))
+      (GenLeafProofs2.bufimg_has bufimg) (GenLeafProofs2.bufimg_val bufimg) (Z.of_N (r_ctb rq))
+      (map Z.of_N (d_types d)) (Z.of_N typeBits)
+  = GenLeafProofs2.found_outcome (select d rq typeBits bufimg).
+Proof. exact GenLeafProofs2.gen_findMemoryTypeIndex_select. Qed.
+Print Assumptions C19_code_findMemoryTypeIndex.
